@@ -13,7 +13,9 @@ Driver for the summary aggregation model (state: program folders + the two summa
   gen <clear01> <visit>              visit = [[dir,[names of the TS scan],[EMIS scan],[EST scan],[REP scan],
                                      [mark/clear scan]],...] in visiting order; every listing must be
                                      a permutation of the model's folder
-                                                -> ok | bad-visit | bad-listing:<dir> | crash:name-regex
+                                     (visit = auto: every scan in stored order)
+                                     crash:empty-file = the real code raises on a selected file without rows
+                                     -> ok | bad-visit | bad-listing:<dir> | crash:name-regex | crash:empty-file
   table ts|emis                      -> prog:sim|v|v|...;prog:sim|...      v = num/den | p<q>:[column]
   dirs                               -> dir=name,name,...;dir=...
   cost <nonbase> <econ>              nonbase = [prog,...]; econ = [[prog,gwpNum,gwpDen,gasNum,gasDen],...]
@@ -24,7 +26,7 @@ Driver for the summary aggregation model (state: program folders + the two summa
   wsim <prog> <sim> <tsRows> <emisRows> <estRows|-> <repRows|->   what (prog, sim) writes          -> ok
   runall <progs> <n> <keep01> <sched>  replaces the state by `runAll` (the function the theorems are
                                      about) on the world given by the wsim lines; sched 0 = every scan
-                                     in stored order, 1 = some scans reversed                       -> ok
+                                     in stored order, 1 = some scans reversed      -> ok | crash:empty-file
 -/
 open LdarModel LdarModel.Summary LdarModel.Proto
 
@@ -157,7 +159,9 @@ def step (s : DSt) (toks : List String) : DSt × String :=
     | some ps, some n, some keep, some mode =>
       let W : Name → Nat → SimOut Content := fun p i =>
         (s.world.lookup (p, i)).getD { ts := .ts [], emis := .emis [], est := none, rep := none }
-      ({ s with st := runAll (concreteStats s.years) W ps keep (drvSched mode) n }, "ok")
+      match runAllChecked (concreteStats s.years) W ps keep (drvSched mode) n with
+      | some st => ({ s with st := st }, "ok")
+      | none => (s, "crash:empty-file")
     | _, _, _, _ => (s, "bad-op")
   | ["mkdir", d] => ({ s with st := { s.st with dirs := s.st.dirs ++ [(d.toList, [])] } }, "ok")
   | ["put", d, name, kind, rows] =>
@@ -170,13 +174,17 @@ def step (s : DSt) (toks : List String) : DSt × String :=
         ({ s with st := { s.st with dirs := s.st.dirs.map fun pd =>
             if pd.1 == d.toList then (pd.1, pd.2 ++ [f]) else pd } }, "ok")
   | ["gen", cl, v] =>
-    match bool? cl, visit? s.st v with
+    match bool? cl, (if v = "auto" then
+        some (.ok ((progDirs s.st).map fun pd =>
+          (pd.1, ({ ts := pd.2, emis := pd.2, est := pd.2, rep := pd.2 } : Listings Content))))
+      else visit? s.st v) with
     | some cl, some (.ok visit) =>
       let S := concreteStats s.years
       let wn := visit.all fun x =>
         wellNamed tsSuffix x.2.ts && wellNamed emisSuffix x.2.emis && wellNamed estSuffix x.2.est
           && wellNamed repSuffix x.2.rep
       if !wn then (s, "crash:name-regex")
+      else if rejectsVisit S visit then (s, "crash:empty-file")
       else ({ s with st := genAll S cl visit s.st }, "ok")
     | some _, some (.error e) => (s, e)
     | _, _ => (s, "bad-op")
